@@ -20,7 +20,7 @@ func init() {
 		Explanation: "Decides clauses C04.1-C04.4 of DESIGN.md on the current source: (1) every call of the pod-create primitive takes a cell of the wanted slice W whose facts contain Status.Phase == \"\" (a pod built by the constructor, never an observed one); " +
 			"(2) the versioned constructor's results flow only into W, and only (i) at an index with W[k]==nil, 0<=k<bound, k not an effective slot or (ii) in place of a Failed/Succeeded pod of the same cell; W is made with the helper's bound and the helper is fed *spec.replicas; " +
 			"(3) every pod/claim write site of the reconcile function is dominated by set.DeletionTimestamp == nil; (4) the raw Pods().Create primitive has only the allowed callers. " +
-			"NOT decided: that the snapshot is the reachable one; that the helper's bound and slots are arithmetically right (C01).",
+			"(5) in the loop over the observed pods an iteration ends without storing the pod in the wanted slice or appending it to the condemned slice only when getOrdinal(pod) < 0; the helper-walk rules of C01.3 are evaluated as a clause (without the int32 overflow rule). NOT decided: that the snapshot is the reachable one; that the helper's bound and slots are arithmetically right (C01).",
 	})
 }
 
